@@ -34,8 +34,41 @@ def run(repo, diffpath, prop='all'):
         out = pr.stdout + pr.stderr
     finally:
         shutil.rmtree(td, ignore_errors=True)
+    # per-property verdicts (one load decides all properties)
+    per = {}
+    cur = []
+    for l in out.splitlines():
+        if l.startswith('  rule=') or l.startswith('ERROR') or l.startswith('VIOLATION'):
+            cur.append(l)
+        elif l.startswith('property='):
+            pid = l.split()[0].split('=')[1]
+            okl = ' violations=0 ' in l and ' undecided=0 ' in l
+            per[pid] = [] if okl else [x for x in cur if not x.startswith('VIOLATION')] or [l]
+            cur = []
+    if cur:
+        per.setdefault('?', []).extend(cur)
     bad = [l for l in out.splitlines() if l.startswith('  rule=') or l.startswith('ERROR')]
-    return dict(name=name, status='silent' if pr.returncode == 0 else 'ALARM', rc=pr.returncode, lines=bad)
+    return dict(name=name, status='silent' if pr.returncode == 0 else 'ALARM', rc=pr.returncode, lines=bad, per=per)
+
+def tree_key(repo):
+    """content hash of everything the sweep depends on: /repo's .go files and go.mod, the checker binary, the diffs"""
+    import hashlib
+    h = hashlib.sha1()
+    files = []
+    for root, dirs, fs in os.walk(repo):
+        dirs[:] = [d for d in dirs if d not in ('.git', 'node_modules')]
+        for f in fs:
+            if f.endswith('.go') or f in ('go.mod', 'go.sum'):
+                files.append(os.path.join(root, f))
+    files += sorted(glob.glob(os.path.join(VERIF, 'benign', '*', '*.diff')))
+    files += [BIN, os.path.join(VERIF, 'baseline_funcs.txt'), os.path.join(VERIF, 'known_findings.json')]
+    for f in sorted(files):
+        h.update(f.encode())
+        try:
+            h.update(open(f, 'rb').read())
+        except OSError:
+            pass
+    return h.hexdigest()[:16]
 
 def main():
     args = sys.argv[1:]
@@ -52,8 +85,40 @@ def main():
     diffs = sorted(glob.glob(os.path.join(VERIF, 'benign', '*', '*.diff')))
     if only:
         diffs = [d for d in diffs if only in d]
-    with concurrent.futures.ThreadPoolExecutor(int(os.environ.get('VARIANT_JOBS', '8'))) as ex:
-        res = list(ex.map(lambda d: run(repo, d, prop), diffs))
+    # One sweep decides every property; per-property invocations (the thorough tier of each
+    # property) reuse it as long as /repo, the checker and the diffs are byte-identical.
+    cache = None
+    res = None
+    if not only and os.environ.get('REFACTORS_NOCACHE', '') == '':
+        os.makedirs(os.path.join(VERIF, 'out'), exist_ok=True)
+        cache = os.path.join(VERIF, 'out', 'refactors-cache-%s.json' % tree_key(repo))
+        if os.path.exists(cache):
+            try:
+                res = json.load(open(cache))
+            except Exception:
+                res = None
+    if res is None:
+        run_prop = 'all' if cache else prop
+        with concurrent.futures.ThreadPoolExecutor(int(os.environ.get('VARIANT_JOBS', '12'))) as ex:
+            res = list(ex.map(lambda d: run(repo, d, run_prop), diffs))
+        if cache:
+            for old in glob.glob(os.path.join(VERIF, 'out', 'refactors-cache-*.json')):
+                try: os.unlink(old)
+                except OSError: pass
+            tmp = cache + '.%d' % os.getpid()
+            json.dump(res, open(tmp, 'w'))
+            os.replace(tmp, cache)
+    if cache and prop != 'all':
+        # project the all-properties sweep onto this property
+        proj = []
+        for r in res:
+            if r['status'] == 'skipped':
+                proj.append(r); continue
+            lines = r.get('per', {}).get(prop)
+            if lines is None:
+                lines = r.get('per', {}).get('?', ['ERROR no verdict for ' + prop]) if r['status'] != 'silent' else []
+            proj.append(dict(name=r['name'], status='silent' if not lines else 'ALARM', lines=lines))
+        res = proj
     bad = [r for r in res if r['status'] == 'ALARM']
     for r in res:
         if r['status'] != 'silent':
